@@ -4,9 +4,12 @@ package main
 // condition peeling, value identity, field access recognition.
 
 import (
+	"fmt"
 	"go/constant"
 	"go/token"
 	"go/types"
+	"sort"
+	"strings"
 
 	"golang.org/x/tools/go/ssa"
 )
@@ -334,4 +337,114 @@ func globalOf(v ssa.Value) *ssa.Global {
 		return globalOf(x.X)
 	}
 	return nil
+}
+
+// existsPathAvoiding reports whether a feasible path exists from the function entry to the
+// instruction `target` that executes no instruction for which gen is true and crosses no edge
+// for which edgeGen is true.  Feasibility is decided only for nil-tests and boolean tests of
+// SSA values that are tested more than once: such a value is immutable, so two tests of it
+// must be taken consistently (this is what makes `if err == nil { f() } … if err != nil {
+// return }` recognisable as "f() always ran on the surviving path").  The returned slice
+// describes the offending path (block comments) for the report.
+func existsPathAvoiding(fn *ssa.Function, target ssa.Instruction, gen func(ssa.Instruction) bool, edgeGen func(b *ssa.BasicBlock, i int) bool) (bool, []string) {
+	if len(fn.Blocks) == 0 {
+		return false, nil
+	}
+	// condition normalisation: value tested, and which successor index means "value is nil/false"
+	type test struct {
+		v       ssa.Value
+		zeroIdx int // successor taken when v is nil (or false)
+	}
+	tests := map[*ssa.BasicBlock]test{}
+	count := map[ssa.Value]int{}
+	for _, b := range fn.Blocks {
+		v, trueIdx, ok := ifCond(b)
+		if !ok {
+			continue
+		}
+		if bo, ok := v.(*ssa.BinOp); ok && (bo.Op == token.EQL || bo.Op == token.NEQ) {
+			x, y := bo.X, bo.Y
+			if isNilConst(x) {
+				x, y = y, x
+			}
+			if isNilConst(y) {
+				zi := trueIdx
+				if bo.Op == token.NEQ {
+					zi = 1 - trueIdx
+				}
+				tests[b] = test{x, zi}
+				count[x]++
+				continue
+			}
+		}
+		if types.Identical(v.Type().Underlying(), types.Typ[types.Bool]) {
+			tests[b] = test{v, 1 - trueIdx}
+			count[v]++
+		}
+	}
+	type key struct {
+		b   *ssa.BasicBlock
+		sig string
+	}
+	failed := map[key]bool{}
+	var path []string
+	sigOf := func(as map[ssa.Value]bool) string {
+		var ks []string
+		for v, z := range as {
+			ks = append(ks, fmt.Sprintf("%s=%v", v.Name(), z))
+		}
+		sort.Strings(ks)
+		return strings.Join(ks, ",")
+	}
+	var dfs func(b *ssa.BasicBlock, as map[ssa.Value]bool, onPath map[*ssa.BasicBlock]bool) bool
+	dfs = func(b *ssa.BasicBlock, as map[ssa.Value]bool, onPath map[*ssa.BasicBlock]bool) bool {
+		k := key{b, sigOf(as)}
+		if failed[k] {
+			return false
+		}
+		failed[k] = true // plain graph search over (block, assumptions) states
+		for _, in := range b.Instrs {
+			if in == target {
+				path = append(path, b.String())
+				return true
+			}
+			if gen != nil && gen(in) {
+				failed[k] = true
+				return false
+			}
+		}
+		t, hasTest := tests[b]
+		for i, s := range b.Succs {
+			if edgeGen != nil && edgeGen(b, i) {
+				continue
+			}
+			as2 := as
+			if hasTest && count[t.v] > 1 {
+				zero := i == t.zeroIdx
+				if prev, ok := as[t.v]; ok {
+					if prev != zero {
+						continue // infeasible: contradicts an earlier test of the same value
+					}
+				} else {
+					as2 = map[ssa.Value]bool{}
+					for k, v := range as {
+						as2[k] = v
+					}
+					as2[t.v] = zero
+				}
+			}
+			if dfs(s, as2, onPath) {
+				path = append(path, b.String())
+				return true
+			}
+		}
+		failed[k] = true
+		return false
+	}
+	found := dfs(fn.Blocks[0], map[ssa.Value]bool{}, map[*ssa.BasicBlock]bool{})
+	// reverse path
+	for i, j := 0, len(path)-1; i < j; i, j = i+1, j-1 {
+		path[i], path[j] = path[j], path[i]
+	}
+	return found, path
 }
